@@ -777,12 +777,17 @@ func main() {
 		workers = 16
 	}
 
+	if err := selfTest(); err != nil {
+		r.Inconclusive("%v", err)
+		r.Finish()
+	}
 	if r.Replay != "" {
 		replayFile(r, r.Replay, merge)
 	} else {
 		exhaustivePhase(r, workers, merge)
 		randomPhase(r, workers, merge)
 		r.Exhaustive(true)
+		r.Set("exhaustive_max_stores", r.Pick(4, 5))
 		r.Floor(int64(r.Pick(100000, 100000)))
 	}
 
